@@ -65,7 +65,8 @@ type CertLoader struct {
 	cert                    *tls.Certificate
 	certMu                  sync.RWMutex
 
-	done chan struct{}
+	done      chan struct{}
+	watchDone chan struct{}
 }
 
 // Initialize initializes a CertLoader.
@@ -101,6 +102,7 @@ func (cl *CertLoader) Initialize() error {
 		return err
 	}
 
+	cl.watchDone = make(chan struct{})
 	go cl.watch()
 
 	return nil
@@ -148,6 +150,11 @@ func (cl *CertLoader) initializeAuto() (bool, error) {
 // Close closes a CertLoader and releases any underlying resources.
 func (cl *CertLoader) Close() {
 	close(cl.done)
+	if cl.watchDone != nil {
+		// watchers close their channel when they are closed:
+		// wait for watch() to stop listening to them.
+		<-cl.watchDone
+	}
 	if cl.certWatcher != nil {
 		cl.certWatcher.Close() //nolint:errcheck
 	}
@@ -167,6 +174,8 @@ func (cl *CertLoader) GetCertificate(_ *tls.ClientHelloInfo) (*tls.Certificate, 
 }
 
 func (cl *CertLoader) watch() {
+	defer close(cl.watchDone)
+
 	for {
 		select {
 		case <-cl.certWatcher.Watch():
